@@ -927,11 +927,14 @@ class Pregex():
             elif _re.match('\(\?[i].+', self.__pattern):
                 # non-capturing group with flag.
                 pattern = f'({str(self)})'
-            else:
+            elif self.__pattern.startswith('(?P<') or not self.__pattern.startswith('(?'):
                 # capturing group.
                 pattern = self.__pattern
+            else:
+                # lookaround, conditional or backreference: not a group of its own.
+                pattern = f'({str(self)})'
             if name is not None:
-                if pattern.startswith('(?P'):
+                if pattern.startswith('(?P<'):
                     pattern = _re.sub('\(\?P<[^>]*>', f'(?P<{name}>', pattern, count=1)
                 else:
                     pattern = f"(?P<{name}>{pattern[1:-1]})"
@@ -961,15 +964,18 @@ class Pregex():
         if self.__type == _Type.Empty:
             return self
         elif self.__type == _Type.Group:
-            if self.__pattern.startswith('(?P'):
+            if self.__pattern.startswith('(?P<'):
                 # Remove name from named capturing group.
                 pattern = _re.sub('\(\?P<[^>]*>', f"(?{'i' if is_case_insensitive else ''}:", str(self), count=1)
-            elif self.__pattern.startswith('(?'):
+            elif _re.match(r'\(\?[i]*:', self.__pattern):
                 # Remove any possible flags from non-capturing group.
                 pattern = _re.sub(
                     r'\(\?[i]*:', f"(?{'i' if is_case_insensitive else ''}:",
                     self.__pattern,
                     count=1)
+            elif self.__pattern.startswith('(?'):
+                # lookaround, conditional or backreference: not a group of its own.
+                pattern = f"(?{'i' if is_case_insensitive else ''}:{self})"
             else:
                 # Else convert capturing group to non-capturing group.
                 pattern = self.__pattern.replace('(', f"(?{'i' if is_case_insensitive else ''}:", 1)
